@@ -13,7 +13,7 @@ run() { # seed-dir property
   esac
   echo "$1 $2 $kind" | tee -a $out
 }
-for d in seeded/S*; do
+for d in seeded/S*-C*; do
   s=$(basename $d); p=${s#*-}
   run $s $p
 done
